@@ -30,6 +30,8 @@ func genMutations(r *simkit.Rand, nAcc int, recurring bool) []int64 {
 	return out
 }
 
+const workerReadErrorArm = false
+
 func generate(r *simkit.Rand, prop, tier string) *simkit.Plan {
 	p := &simkit.Plan{Knobs: map[string]int64{}}
 	nAcc := r.Range(2, 4)
@@ -40,6 +42,7 @@ func generate(r *simkit.Rand, prop, tier string) *simkit.Plan {
 	p.Knobs["queue"] = int64(r.Intn(6))
 	recurring := false
 	faulty := false
+	workerFaults := false
 	if prop == "C09" {
 		switch r.Intn(10) {
 		case 0, 1, 2:
@@ -54,6 +57,16 @@ func generate(r *simkit.Rand, prop, tier string) *simkit.Plan {
 		}
 	} else {
 		p.Arm = "snapshots"
+		// A "worker read error" arm exists in the executor (a release step with fault get_error fails the next main-DB
+		// read of a checkpoint worker) but is not generated: the property does not quantify over I/O faults, and on the
+		// unchanged tree a transient read error inside a DATA-TRIE checkpoint leaves that checkpoint and every later
+		// snapshot/checkpoint of an unchanged account incomplete (the root is present, so later requests are skipped or
+		// never revisit the leaf). See DESIGN.md 11.4.
+		if workerReadErrorArm && r.Chance(0.3) {
+			p.Arm = "snapshots+worker-read-errors"
+			p.Faults = []string{"worker_get_error"}
+			workerFaults = true
+		}
 		p.Knobs["snapbuf"] = int64([]int{1, 2, 10}[r.Intn(3)])
 		p.Knobs["maxsnap"] = int64(r.Range(1, 3))
 		p.Knobs["delay"] = int64(r.Intn(3))
@@ -80,6 +93,9 @@ func generate(r *simkit.Rand, prop, tier string) *simkit.Plan {
 		if faulty && (st.Op == "finalize" || st.Op == "rollback") && r.Chance(0.25) {
 			st.Fault = []string{"get_error", "remove_error", "ewl_get_error"}[r.Intn(3)]
 			st.FaultAt = r.Intn(5)
+		}
+		if workerFaults && st.Op == "release" && r.Chance(0.08) {
+			st.Fault = "get_error" // the released worker's next main-DB read fails (only armed during a checkpoint)
 		}
 		p.Steps = append(p.Steps, st)
 	}
